@@ -12,6 +12,9 @@ import (
 
 // binopChecked is binop plus the Go run-time checks that involve symbolic operands.
 func (r *Run) binopChecked(op token.Token, t types.Type, x, y value) value {
+	if isSymstr(x) || isSymstr(y) {
+		return symstrBinop(op, x, y)
+	}
 	if isSym(x) || isSym(y) {
 		if op == token.QUO || op == token.REM {
 			if _, k := toTerm(y); k == 'i' {
@@ -37,6 +40,30 @@ func (r *Run) sliceOp(x, lo, hi, max value) value {
 	switch xs := x.(type) {
 	case *absSlice:
 		return r.symSlice(xs, lo, hi)
+	case symstr:
+		l, h := 0, len(xs.b)
+		if lo != nil {
+			if sv, ok := lo.(symv); ok {
+				if !r.branch(symv{'b', fmt.Sprintf("(and (bvsle %s %s) (bvsle %s %s))", bvlit(0), sv.term, sv.term, bvlit(int64(len(xs.b))))}) {
+					panic(targetPanic{"runtime error: slice bounds out of range"})
+				}
+				lo = int(r.concretize(sv, len(xs.b)+1, "string slice low"))
+			}
+			l = int(asInt64(lo))
+		}
+		if hi != nil {
+			if sv, ok := hi.(symv); ok {
+				if !r.branch(symv{'b', fmt.Sprintf("(and (bvsle %s %s) (bvsle %s %s))", bvlit(int64(l)), sv.term, sv.term, bvlit(int64(len(xs.b))))}) {
+					panic(targetPanic{"runtime error: slice bounds out of range"})
+				}
+				hi = int(r.concretize(sv, len(xs.b)+1, "string slice high"))
+			}
+			h = int(asInt64(hi))
+		}
+		if l < 0 || l > h || h > len(xs.b) {
+			panic(targetPanic{fmt.Sprintf("runtime error: slice bounds out of range [%d:%d] with length %d", l, h, len(xs.b))})
+		}
+		return mkStr(xs.b[l:h])
 	case symv: // string
 		l, h := lo, hi
 		if l == nil {
@@ -123,6 +150,8 @@ func (r *Run) concIndex(idx value, x value) value {
 		n = len(xs)
 	case string:
 		n = len(xs)
+	case symstr:
+		n = len(xs.b)
 	case symv:
 		return idx
 	}
@@ -148,6 +177,9 @@ func (r *Run) symStrIndex(s symv, idx value) value {
 // concKey makes a map key concrete: a symbolic string/int key forks over the keys
 // present in the map plus one "fresh" alternative.
 func (r *Run) concKey(k value, m value) value {
+	if ss, ok := k.(symstr); ok {
+		return r.concKeyBytes(ss, m)
+	}
 	sv, ok := k.(symv)
 	if !ok {
 		return k
@@ -235,4 +267,53 @@ func (i *interpreter) checkGlobal(g *ssa.Global) {
 		return
 	}
 	i.R.inconclusive("read of foreign global with unexecuted initialiser: " + g.String())
+}
+
+// concKeyBytes: a byte-vector string used as a map key forks over equality with the
+// present keys of the same length; otherwise its bytes are fixed by a model witness.
+func (r *Run) concKeyBytes(ss symstr, m value) value {
+	mm, ok := m.(map[value]value)
+	if !ok {
+		panic(fmt.Sprintf("symbolic key for map type %T", m))
+	}
+	var keys []string
+	for kk := range mm {
+		if s, ok := kk.(string); ok && len(s) == len(ss.b) {
+			keys = append(keys, s)
+		}
+	}
+	sort.Strings(keys)
+	for _, kk := range keys {
+		kb, _ := strBytes(kk)
+		if r.decide(symstrEq(ss.b, kb)) {
+			return kk
+		}
+	}
+	return r.witnessBytes(ss)
+}
+
+// witnessBytes fixes the symbolic bytes of s to a model value (adds the equalities to
+// the path condition) and returns the concrete string.
+func (r *Run) witnessBytes(ss symstr) string {
+	var want []string
+	for _, b := range ss.b {
+		if sv, ok := b.(symv); ok {
+			want = append(want, sv.term)
+		}
+	}
+	st, mod := r.Z.Check("", want)
+	if st != "sat" {
+		r.inconclusive("cannot find a witness for a symbolic string")
+	}
+	out := make([]byte, len(ss.b))
+	for i, b := range ss.b {
+		if sv, ok := b.(symv); ok {
+			n, _ := DecodeBV(mod[sv.term])
+			out[i] = byte(n)
+			r.addPC("(= " + sv.term + " " + bvlit(n) + ")")
+		} else {
+			out[i] = b.(byte)
+		}
+	}
+	return string(out)
 }
